@@ -261,43 +261,43 @@ fn step_body(kind: u8, phase: u8, live: bool, pend_write: bool, pend_flush: bool
     }
 }
 
-// @harness props=C01,C13,C11,C16,C10,C02,C15 tier=quick layer=L3c unwind=8 heavy=1
+// @harness props=C01,C13,C11,C16,C10,C02,C15 quick_props=C01,C15,C16,C13 tier=quick layer=L3c unwind=8 heavy=1
 // @harness funcs="Connection::perform_outbound_step (Retained), write_current, flush_current, complete_flush, set_written, handle_disconnect; RuntimeState::note_outbound_activity (real coroutines)"
 // @harness sym="written offset, every arena byte, clock, per write: error / accepted 1..=n bytes; per flush: error / ok; after each Pending: drop (cancel) or re-poll" bounds="one step on a 4-byte retained packet; write phase, transport ready; <= 3 polls; keep-alive 60 s"
 // @harness assumes="transport contract: write never returns Ok(0) for a non-empty buffer; a pending write/flush has accepted nothing (cancel-safe I/O)"
 absout_harness!(c01_step_retained_write, 8, { step_body(g::K_RET, 0, true, false, false) });
 
-// @harness props=C01,C13,C11,C16,C10,C02,C15 tier=quick layer=L3c unwind=8 heavy=1
+// @harness props=C01,C13,C11,C16,C10,C02,C15 quick_props=C13 tier=quick layer=L3c unwind=8 heavy=1
 // @harness funcs="Connection::perform_outbound_step (Retained), write_current, flush_current, complete_flush, set_written, handle_disconnect; RuntimeState::note_outbound_activity (real coroutines)"
 // @harness sym="written offset, every arena byte, clock, per write: error / accepted 1..=n bytes; per flush: error / ok; after each Pending: drop (cancel) or re-poll" bounds="one step on a 4-byte retained packet; write phase, write pending once (cancel point); <= 3 polls; keep-alive 60 s"
 // @harness assumes="transport contract: write never returns Ok(0) for a non-empty buffer; a pending write/flush has accepted nothing (cancel-safe I/O)"
 absout_harness!(c01_step_retained_write_wpend, 8, { step_body(g::K_RET, 0, true, true, false) });
 
-// @harness props=C01,C13,C11,C16,C10,C02,C15 tier=quick layer=L3c unwind=8 heavy=1
+// @harness props=C01,C13,C11,C16,C10,C02,C15 quick_props=C13,C01 tier=quick layer=L3c unwind=8 heavy=1
 // @harness funcs="Connection::perform_outbound_step (Retained), write_current, flush_current, complete_flush, set_written, handle_disconnect; RuntimeState::note_outbound_activity (real coroutines)"
 // @harness sym="written offset, every arena byte, clock, per write: error / accepted 1..=n bytes; per flush: error / ok; after each Pending: drop (cancel) or re-poll" bounds="one step on a 4-byte retained packet; write phase, flush pending once (cancel point after accepted bytes); <= 3 polls; keep-alive 60 s"
 // @harness assumes="transport contract: write never returns Ok(0) for a non-empty buffer; a pending write/flush has accepted nothing (cancel-safe I/O)"
 absout_harness!(c01_step_retained_write_fpend, 8, { step_body(g::K_RET, 0, true, false, true) });
 
-// @harness props=C01,C13,C11,C16,C10,C02,C15 tier=quick layer=L3c unwind=8 heavy=1
+// @harness props=C01,C13,C11,C16,C10,C02,C15 quick_props=C02,C10,C16 tier=quick layer=L3c unwind=8 heavy=1
 // @harness funcs="Connection::perform_outbound_step (Retained), write_current, flush_current, complete_flush, set_written, handle_disconnect; RuntimeState::note_outbound_activity (real coroutines)"
 // @harness sym="written offset, every arena byte, clock, per write: error / accepted 1..=n bytes; per flush: error / ok; after each Pending: drop (cancel) or re-poll" bounds="one step on a 4-byte retained packet; flush phase, transport ready; <= 3 polls; keep-alive 60 s"
 // @harness assumes="transport contract: write never returns Ok(0) for a non-empty buffer; a pending write/flush has accepted nothing (cancel-safe I/O)"
 absout_harness!(c01_step_retained_flush, 8, { step_body(g::K_RET, 1, true, false, false) });
 
-// @harness props=C01,C13,C11,C16,C10,C02,C15 tier=quick layer=L3c unwind=8 heavy=1
+// @harness props=C01,C13,C11,C16,C10,C02,C15 quick_props=C13 tier=quick layer=L3c unwind=8 heavy=1
 // @harness funcs="Connection::perform_outbound_step (Retained), write_current, flush_current, complete_flush, set_written, handle_disconnect; RuntimeState::note_outbound_activity (real coroutines)"
 // @harness sym="written offset, every arena byte, clock, per write: error / accepted 1..=n bytes; per flush: error / ok; after each Pending: drop (cancel) or re-poll" bounds="one step on a 4-byte retained packet; flush phase, flush pending once (cancel point); <= 3 polls; keep-alive 60 s"
 // @harness assumes="transport contract: write never returns Ok(0) for a non-empty buffer; a pending write/flush has accepted nothing (cancel-safe I/O)"
 absout_harness!(c01_step_retained_flush_fpend, 8, { step_body(g::K_RET, 1, true, false, true) });
 
-// @harness props=C01,C13,C11,C16,C10,C02,C15 tier=quick layer=L3c unwind=8 heavy=1
+// @harness props=C01,C13,C11,C16,C10,C02,C15 quick_props=C11 tier=quick layer=L3c unwind=8 heavy=1
 // @harness funcs="Connection::perform_outbound_step (Retained), write_current, flush_current, complete_flush, set_written, handle_disconnect; RuntimeState::note_outbound_activity (real coroutines)"
 // @harness sym="written offset, every arena byte, clock, per write: error / accepted 1..=n bytes; per flush: error / ok; after each Pending: drop (cancel) or re-poll" bounds="one step on a 4-byte retained packet; handle already dead; <= 3 polls; keep-alive 60 s"
 // @harness assumes="transport contract: write never returns Ok(0) for a non-empty buffer; a pending write/flush has accepted nothing (cancel-safe I/O)"
 absout_harness!(c01_step_retained_dead, 8, { step_body(g::K_RET, 0, false, false, false) });
 
-// @harness props=C01,C13,C11,C16,C10,C04,C14 tier=quick layer=L3c unwind=8 heavy=1
+// @harness props=C01,C13,C11,C16,C10,C04,C14 quick_props=C04,C01,C14 tier=quick layer=L3c unwind=8 heavy=1
 // @harness funcs="Connection::perform_outbound_step (Control), serialize_control_packet, encode_control_packet (real PUBACK encoder) (real coroutines)"
 // @harness sym="written offset, every arena byte, clock, per write: error / accepted 1..=n bytes; per flush: error / ok; after each Pending: drop (cancel) or re-poll" bounds="one step on PUBACK(id 7), 5 bytes; write phase, transport ready; <= 3 polls; keep-alive 60 s"
 // @harness assumes="transport contract: write never returns Ok(0) for a non-empty buffer; a pending write/flush has accepted nothing (cancel-safe I/O)"
@@ -327,13 +327,13 @@ absout_harness!(c01_step_ack_flush, 8, { step_body(g::K_ACK, 1, true, false, fal
 // @harness assumes="transport contract: write never returns Ok(0) for a non-empty buffer; a pending write/flush has accepted nothing (cancel-safe I/O)"
 absout_harness!(c01_step_ack_flush_fpend, 8, { step_body(g::K_ACK, 1, true, false, true) });
 
-// @harness props=C01,C13,C11,C16,C10,C04,C14 tier=quick layer=L3c unwind=8 heavy=1
+// @harness props=C01,C13,C11,C16,C10,C04,C14 quick_props=C11 tier=quick layer=L3c unwind=8 heavy=1
 // @harness funcs="Connection::perform_outbound_step (Control), serialize_control_packet, encode_control_packet (real PUBACK encoder) (real coroutines)"
 // @harness sym="written offset, every arena byte, clock, per write: error / accepted 1..=n bytes; per flush: error / ok; after each Pending: drop (cancel) or re-poll" bounds="one step on PUBACK(id 7), 5 bytes; handle already dead; <= 3 polls; keep-alive 60 s"
 // @harness assumes="transport contract: write never returns Ok(0) for a non-empty buffer; a pending write/flush has accepted nothing (cancel-safe I/O)"
 absout_harness!(c01_step_ack_dead, 8, { step_body(g::K_ACK, 0, false, false, false) });
 
-// @harness props=C01,C13,C10,C16 tier=quick layer=L3c unwind=8 heavy=1
+// @harness props=C01,C13,C10,C16 quick_props=C10 tier=quick layer=L3c unwind=8 heavy=1
 // @harness funcs="Connection::perform_outbound_step (Control PingReq), complete_flush (real coroutines)"
 // @harness sym="written offset, every arena byte, clock, per write: error / accepted 1..=n bytes; per flush: error / ok; after each Pending: drop (cancel) or re-poll" bounds="one step on PINGREQ, 2 bytes; write phase, transport ready; <= 3 polls; keep-alive 60 s"
 // @harness assumes="transport contract: write never returns Ok(0) for a non-empty buffer; a pending write/flush has accepted nothing (cancel-safe I/O)"
@@ -351,7 +351,7 @@ absout_harness!(c01_step_ping_write_wpend, 8, { step_body(g::K_PING, 0, true, tr
 // @harness assumes="transport contract: write never returns Ok(0) for a non-empty buffer; a pending write/flush has accepted nothing (cancel-safe I/O)"
 absout_harness!(c01_step_ping_write_fpend, 8, { step_body(g::K_PING, 0, true, false, true) });
 
-// @harness props=C01,C13,C10,C16 tier=quick layer=L3c unwind=8 heavy=1
+// @harness props=C01,C13,C10,C16 quick_props=C10 tier=quick layer=L3c unwind=8 heavy=1
 // @harness funcs="Connection::perform_outbound_step (Control PingReq), complete_flush (real coroutines)"
 // @harness sym="written offset, every arena byte, clock, per write: error / accepted 1..=n bytes; per flush: error / ok; after each Pending: drop (cancel) or re-poll" bounds="one step on PINGREQ, 2 bytes; flush phase, transport ready; <= 3 polls; keep-alive 60 s"
 // @harness assumes="transport contract: write never returns Ok(0) for a non-empty buffer; a pending write/flush has accepted nothing (cancel-safe I/O)"
@@ -363,7 +363,7 @@ absout_harness!(c01_step_ping_flush, 8, { step_body(g::K_PING, 1, true, false, f
 // @harness assumes="transport contract: write never returns Ok(0) for a non-empty buffer; a pending write/flush has accepted nothing (cancel-safe I/O)"
 absout_harness!(c01_step_ping_flush_fpend, 8, { step_body(g::K_PING, 1, true, false, true) });
 
-// @harness props=C01,C13,C03,C16 tier=quick layer=L3c unwind=8 heavy=1
+// @harness props=C01,C13,C03,C16 quick_props=C03 tier=quick layer=L3c unwind=8 heavy=1
 // @harness funcs="Connection::perform_outbound_step (Release), serialize_pubrel (real coroutines)"
 // @harness sym="written offset, every arena byte, clock, per write: error / accepted 1..=n bytes; per flush: error / ok; after each Pending: drop (cancel) or re-poll" bounds="one step on PUBREL(id 9), 5 bytes; write phase, transport ready; <= 3 polls; keep-alive 60 s"
 // @harness assumes="transport contract: write never returns Ok(0) for a non-empty buffer; a pending write/flush has accepted nothing (cancel-safe I/O)"
@@ -442,7 +442,7 @@ absout_harness!(c14_replay_respects_limit, 8, {
 // ---------------------------------------------------------------------------------------------
 // A3: write_all / write_packet (direct writers: progress is recorded nowhere)
 // ---------------------------------------------------------------------------------------------
-// @harness props=C13,C01,C15 tier=quick layer=L3c heavy=1
+// @harness props=C13,C01,C15 quick_props=C13,C15,C01 tier=quick layer=L3c heavy=1
 // @harness funcs="outbound::write_all (real coroutine)"
 // @harness sym="4 bytes, per write pending/error/accepted k, drop or re-poll" bounds="4-byte buffer, <= 6 polls"
 // @harness assumes="transport contract as c01_step_retained"
